@@ -78,6 +78,20 @@ func (f *frame) check(kind string, goal Term, pos token.Pos) {
 	f.x.safety(f.st, kind, goal, pos)
 }
 
+// markIndex records a ground index term of the code as a trigger for quantified
+// clauses (alternative pattern (idxmark q)): patterns over offset+index sums do
+// not match once the solver has normalised the ground sum (e.g. off+(c+1)).
+func (f *frame) markIndex(idx Term) {
+	if f.pure || f.st == nil || f.x.X.bvMode {
+		return
+	}
+	if _, lit := litVal(idx); lit {
+		return
+	}
+	f.x.X.declare("idxmark", "(declare-fun idxmark (Int) Bool)")
+	f.x.assertGlobal(sx("idxmark", idx))
+}
+
 func (f *frame) assumeT(t Term) {
 	if f.pure || f.st == nil {
 		return
@@ -256,6 +270,7 @@ func (f *frame) evalCommon(in ssa.Instruction) bool {
 		switch u := in.X.Type().Underlying().(type) {
 		case *types.Slice:
 			f.check("index", and(sx("<=", "0", idx), sx("<", idx, sx("sllen", xv.T))), in.Pos())
+			f.markIndex(idx)
 			pos := sx("+", sx("soff", xv.T), idx)
 			if isStruct(u.Elem()) {
 				f.set(in, Val{T: sx("elemref", sx("sbase", xv.T), pos)})
@@ -314,6 +329,7 @@ func (f *frame) evalCommon(in ssa.Instruction) bool {
 			iv := f.get(in.Index)
 			idx := f.toInt(iv.T, in.Index.Type())
 			f.check("index", and(sx("<=", "0", idx), sx("<", idx, sx("slen", xv.T))), in.Pos())
+			f.markIndex(idx)
 			t := sx("select", sx("sdata", xv.T), idx)
 			if !f.pure && !x.X.bvMode {
 				t = x.define(x.valName(in), "Int", t)
